@@ -179,6 +179,10 @@ class Builder:
             return self.M(n[1])[n[2], :]
         if k == "col":
             return self.M(n[1])[:, n[2]]
+        if k == "rows":
+            return self.M(n[1])[n[2], slice(n[3], n[4], n[5])]
+        if k == "cols":
+            return self.M(n[1])[slice(n[3], n[4], n[5]), n[2]]
         if k == "diag":
             return self.M(n[1]).diagonal()
         if k == "diagf":
